@@ -82,7 +82,8 @@ def gen_case(rng, i):
             n = rng.randint(3, 25)
             srcs.append({"gen": True, "flow": rng.randrange(nflows), "initial_delay": rng.choice([0, 0, 0.5, 1.25]),
                          "gaps": [rng.choice([0, 0, 0.1, 0.25, 1.0]) for _ in range(n - 1)] + [rng.choice([0.25, 1.0])],
-                         "sizes": [rng.choice([100, 200, 1000]) for _ in range(n)], "finish": rng.choice([None, 3.0, 8.0]),
+                         "sizes": [rng.choice([100, 200, 1000] if rng.random() < 0.8 else [100.5, 250.25, 64.0, 40.75]) for _ in range(n)],
+                         "finish": rng.choice([None, 3.0, 8.0]),
                          "id": f"g{s}"})
         else:
             arr = vnet.gen_arrivals(rng, nflows, "float", rng.randint(3, 40), [100, 200, 1000], None, burst_p=0.5)
